@@ -8,9 +8,11 @@ VARIABLES k, off, ncov
 Obj(t, isize, hi, dsize, nbytes, ehmax, bs, coff, count, tail) ==
    [type |-> t, isize |-> isize, hi |-> hi, dsize |-> dsize, nbytes |-> nbytes, ehmax |-> ehmax, bs |-> bs, coff |-> coff, count |-> count, tail |-> tail]
 Objs == << Obj("sb", 0, 0, 0, 0, 0, 1024, 0, 0, 0),
-           Obj("gd", 0, 0, 32, 0, 0, 1024, 0, 0, 0), Obj("gd", 0, 0, 64, 0, 0, 1024, 0, 0, 0),
+           Obj("gd", 0, 0, 32, 0, 0, 1024, 0, 0, 0), Obj("gd", 0, 0, 64, 0, 0, 1024, 0, 0, 0), Obj("gd", 0, 0, 128, 0, 0, 1024, 0, 0, 0),
            Obj("bb", 0, 0, 64, 256, 0, 1024, 0, 0, 0), Obj("ib", 0, 0, 32, 32, 0, 1024, 0, 0, 0), Obj("bb", 0, 0, 64, 4096, 0, 4096, 0, 0, 0),
+           Obj("bb", 0, 0, 128, 128, 0, 1024, 0, 0, 0), Obj("ib", 0, 0, 128, 6, 0, 1024, 0, 0, 0),
            Obj("inode", 128, 0, 0, 0, 0, 1024, 0, 0, 0), Obj("inode", 256, 1, 0, 0, 0, 1024, 0, 0, 0), Obj("inode", 256, 0, 0, 0, 0, 1024, 0, 0, 0),
+           Obj("inode", 512, 1, 0, 0, 0, 1024, 0, 0, 0),
            Obj("extblk", 0, 0, 0, 0, 84, 1024, 0, 0, 0), Obj("extblk", 0, 0, 0, 0, 340, 4096, 0, 0, 0),
            Obj("dirleaf", 0, 0, 0, 0, 0, 1024, 0, 0, 0), Obj("dirleaf", 0, 0, 0, 0, 0, 4096, 0, 0, 0),
            Obj("dxnode", 0, 0, 0, 0, 0, 1024, 32, 5, 1016), Obj("dxnode", 0, 0, 0, 0, 0, 1024, 8, 126, 1016), Obj("dxnode", 0, 0, 0, 0, 0, 4096, 8, 1, 4088),
